@@ -6,11 +6,11 @@ import (
 	"fmt"
 	"net/url"
 	"regexp"
+	"slices"
 	"strconv"
 	"strings"
 	"time"
 
-	"github.com/grpc-ecosystem/grpc-gateway/v2/utilities"
 	"google.golang.org/grpc/grpclog"
 	"google.golang.org/protobuf/encoding/protojson"
 	"google.golang.org/protobuf/proto"
@@ -39,14 +39,36 @@ var valuesKeyRegexp = regexp.MustCompile(`^(.*)\[(.*)\]$`)
 
 var currentQueryParser QueryParameterParser = &DefaultQueryParser{}
 
+// Filter decides which query parameters must be ignored because their field is already bound
+// by the request body or by a path parameter. *utilities.DoubleArray implements it.
+type Filter interface {
+	// HasCommonPrefix reports whether any registered sequence is a prefix of the given sequence.
+	HasCommonPrefix(seq []string) bool
+}
+
+// PrefixFilter is a Filter over a plain list of field paths. Unlike utilities.DoubleArray,
+// whose construction loses sequences when several of them start with the same element or are equal
+// (e.g. {"a.b.c", "a.c"} or {"a", "a"}), it always recognizes every registered prefix.
+type PrefixFilter [][]string
+
+// HasCommonPrefix implements Filter.
+func (f PrefixFilter) HasCommonPrefix(seq []string) bool {
+	for _, prefix := range f {
+		if len(prefix) <= len(seq) && slices.Equal(prefix, seq[:len(prefix)]) {
+			return true
+		}
+	}
+	return false
+}
+
 // QueryParameterParser defines interface for all query parameter parsers
 type QueryParameterParser interface {
-	Parse(msg proto.Message, values url.Values, filter *utilities.DoubleArray) error
+	Parse(msg proto.Message, values url.Values, filter Filter) error
 }
 
 // PopulateQueryParameters parses query parameters
 // into "msg" using current query parser
-func PopulateQueryParameters(msg proto.Message, values url.Values, filter *utilities.DoubleArray) error {
+func PopulateQueryParameters(msg proto.Message, values url.Values, filter Filter) error {
 	return currentQueryParser.Parse(msg, values, filter)
 }
 
@@ -58,7 +80,7 @@ type DefaultQueryParser struct{}
 
 // Parse populates "values" into "msg".
 // A value is ignored if its key starts with one of the elements in "filter".
-func (*DefaultQueryParser) Parse(msg proto.Message, values url.Values, filter *utilities.DoubleArray) error {
+func (*DefaultQueryParser) Parse(msg proto.Message, values url.Values, filter Filter) error {
 	for key, values := range values {
 		if match := valuesKeyRegexp.FindStringSubmatch(key); len(match) == 3 {
 			key = match[1]
